@@ -69,6 +69,24 @@ def run(ctx):
                 if not close(got, want):
                     bad(f"Fluid.{name} differs from the stand-alone correlation evaluated with the object's attributes" + ("" if how == "as constructed" else " (attributes re-assigned after the object was used)"), inp,
                         dict(got=[float(x) for x in np.ravel(got)][:4], want=[float(x) for x in np.ravel(want)][:4]))
+    # ---------------- long pressure arrays through the facade (post-processing of a fine simulation): every entry is the stand-alone
+    # correlation at that pressure, whatever the length of the array
+    for nlong in ((20001,) if ctx.quick else (5001, 20001, 50001)):
+        T, api, gg, rsi, pb = dom.oil_params(rng)
+        fl = Fluid(T, api, gg, rsi, 3.0, 0.2)
+        tpc, ppc = -72.2, 653.0
+        plong = rng.uniform(100.0, min(9000.0, 30 * ppc), nlong)
+        sub = np.concatenate([[0, nlong - 1], rng.choice(nlong, 150, replace=False)])
+        checks_l = [("water_FVF", fl.water_FVF(plong), lambda x: water.b_water_McCain(T, x)), ("oil_FVF", fl.oil_FVF(plong), lambda x: oil.b_o_Standing(T, x, api, gg, rsi))]
+        if 1.05 <= (T + 459.67) / (tpc + 459.67) <= 3:
+            checks_l += [("gas_FVF", fl.gas_FVF(plong, tpc, ppc), lambda x: gas.b_factor_DAK(T, x, tpc, ppc)), ("gas_viscosity", fl.gas_viscosity(plong, tpc, ppc), lambda x: gas.viscosity_Sutton(T, x, tpc, ppc, gg))]
+        for name, got, sc in checks_l:
+            ev += 1
+            got = np.asarray(got, float)
+            want = np.array([float(sc(float(plong[j_]))) for j_ in sub])
+            if got.shape != plong.shape or not np.allclose(got[sub], want, rtol=1e-12, atol=0):
+                bad(f"Fluid.{name} differs from the stand-alone correlation evaluated with the object's attributes (long pressure array)", dict(T=T, api=api, gg=gg, Rsi=rsi, n=nlong, Tpc=tpc, Ppc=ppc),
+                    dict(max_rel_diff=float(np.abs(got[sub] / want - 1).max()) if got.shape == plong.shape else "shape"))
     # ---------------- table builder
     ntab = 3 if ctx.quick else 18
     for k in range(ntab):
